@@ -105,6 +105,11 @@ func (itr *BrokerRowFlatDecoder) DecodeTo(row *BrokerRow) error {
 	itr.resetForNextDecode()
 
 	if itr.size <= 0 || itr.size > maxRowLength {
+		if itr.size > 0 {
+			// NOTE: need skip the body of the row which is too long, else next row's length will be read from the middle of it.
+			n, _ := io.CopyN(io.Discard, itr.reader, int64(itr.size))
+			itr.readLen += int(n)
+		}
 		return fmt.Errorf("invalid flat row length: %d", itr.size)
 	}
 	if itr.size > cap(itr.buf) {
